@@ -188,28 +188,41 @@ theorem non_hello_none (parse : Bytes → PR σ) {r : Bytes} (segs : List Bytes)
   simp only [List.length_drop]
   omega
 
-/-- A stream that does not start with the handshake content type never produces anything, however
-it is cut and however long it gets. -/
+/-- A stream that does not start with the handshake content type produces nothing for as long as its
+header is incomplete and on the segment that completes the five header bytes; at that point the buffer
+is discarded, so the remaining segments are processed as a stream of their own (`reset` semantics;
+the bytes are no longer accumulated). -/
 theorem non_handshake_none (parse : Bytes → PR σ) (segs : List Bytes)
     (h : ∀ x ∈ segs.flatten.head?, x ≠ 0x16) :
-    Reader.run parse Reader.init segs = List.replicate segs.length Out.none := by
+    Reader.run parse Reader.init segs =
+      List.replicate (min (Spec.completionIdx 5 segs + 1) segs.length) Out.none
+        ++ Reader.run parse Reader.init (segs.drop (Spec.completionIdx 5 segs + 1)) := by
   cases hw : segs.flatten with
   | nil =>
-    -- every segment is empty
+    -- every segment is empty: nothing ever happens
     have hall := List.flatten_eq_nil_iff.mp hw
-    clear h hw
-    induction segs with
-    | nil => rfl
-    | cons a t iht =>
-      have ha : a = [] := hall a (by simp)
-      subst ha
-      have : (Reader.init : Reader σ).addBytes parse [] = (Reader.init, Out.none) := by
-        simp [Reader.addBytes, Reader.addBytesT, Reader.init, readerHdrLen]
-      simp only [Reader.run, this, List.length_cons, List.replicate_succ]
-      exact congrArg _ (iht (fun x hx => hall x (by simp [hx])))
+    have hrun : ∀ (l : List Bytes), (∀ x ∈ l, x = []) →
+        Reader.run parse (Reader.init : Reader σ) l = List.replicate l.length Out.none := by
+      intro l
+      induction l with
+      | nil => intro _; rfl
+      | cons a t iht =>
+        intro hall
+        have ha : a = [] := hall a (by simp)
+        subst ha
+        have : (Reader.init : Reader σ).addBytes parse [] = (Reader.init, Out.none) := by
+          simp [Reader.addBytes, Reader.addBytesT, Reader.init, readerHdrLen]
+        simp only [Reader.run, this, List.length_cons, List.replicate_succ]
+        exact congrArg _ (iht (fun x hx => hall x (by simp [hx])))
+    rw [hrun segs hall, hrun _ (fun x hx => hall x (List.mem_of_mem_drop hx)), List.replicate_append_replicate]
+    congr 1
+    simp only [List.length_drop]
+    omega
   | cons c rest =>
     have hc : c ≠ 0x16 := h c (by simp [hw])
-    exact run_not_handshake parse c hc segs [] (by simp [hw]) (by simp)
+    have := run_not_handshake parse c hc segs [] (by decide) (by simp [hw])
+    simp only [List.length_nil, Nat.sub_zero] at this
+    exact this
 
 /-- A record the parser rejects (malformed ClientHello, record over tls-parser's limit, …) never
 yields a signature: `None` before completion, the parse error from then on. -/
@@ -368,8 +381,9 @@ example : Reader.run (fun _ => (PR.notHello : PR Nat)) Reader.init [[0x16, 3, 1]
     [Out.none, Out.none] :=
   non_hello_none _ [[0x16, 3, 1], [0, 1, 0xaa]] r0_record rfl (by decide)
 
-example : Reader.run parse0 Reader.init [[0x17, 3, 3, 0, 1], [0], r0] = [Out.none, Out.none, Out.none] :=
-  non_handshake_none parse0 _ (by decide)
+example : Reader.run parse0 Reader.init [[0x17, 3, 3], [0, 1, 0], r0] =
+    [Out.none, Out.none] ++ Reader.run parse0 Reader.init [r0] :=
+  non_handshake_none parse0 [[0x17, 3, 3], [0, 1, 0], r0] (by decide)
 
 example : runPackets parse0 ({ cap := 1 } : Flows Nat Nat)
     [(5, [0x16, 3, 1, 0, 1]), (5, []), (5, [0xaa, 9]), (5, [9, 9])] =
